@@ -57,7 +57,7 @@ func RunExtra(goBin, dir string, sources []string, parallel, runs int, extra map
 	if err := os.MkdirAll(dir, 0o755); err != nil {
 		return nil, err
 	}
-	if err := os.WriteFile(filepath.Join(dir, "go.mod"), []byte("module progs\n\ngo 1.21\n"), 0o644); err != nil {
+	if err := os.WriteFile(filepath.Join(dir, "go.mod"), []byte("module progs\n\ngo 1.25\n"), 0o644); err != nil {
 		return nil, err
 	}
 	for name, content := range extra {
